@@ -1025,6 +1025,7 @@ impl Session {
     }
 
 //@@ fn file=fe2o3-amqp/src/session/mod.rs impl=`impl endpoint::Session for Session` name=on_incoming_disposition
+//@@ attr #[verifier::spinoff_prover]
 //@@ shape loops=while,while,for,for
 //@@ subst `&delivery_ids[..]` => `delivery_ids.as_slice()` rule=R22
 //@@ subst `let mut delivery_ids = Vec::new();` => `let mut delivery_ids: Vec<u32> = Vec::new();` rule=optional-R5
